@@ -2111,3 +2111,7 @@ mod tests {
         println!("sum {}", sum);
     }
 }
+
+#[cfg(kani)]
+#[path = "/verif/kani/rten-tensor/iterators.rs"]
+mod verif_kani;
